@@ -10,10 +10,10 @@ LEVEL = 'proof'
 CLAIM = ("(i) UBSan-trap-instrumented (incl. -fsanitize=alignment) clang IR of the scalar/vector integer, bitfield, rounding, conversion, packing, half, power-of-two/multiple and indexing functions (the sites named in the property: abs/sign "
          "bit tricks, roundEven/iround/uround casts, mask/rotate/fill shifts, pack narrowing conversions, type_half, swizzle/operator[] indexing) is executed symbolically over all argument values; the solver "
          "shows every sanitizer trap and every executor-detected UB unreachable under the documented precondition; counterexamples are replayed under a -fno-sanitize-recover build. (ii) The same for the aligned 4-component SIMD slice (GLM_FORCE_INTRINSICS, SSE2; thorough also AVX2) including packed<->aligned conversions from deliberately misaligned sources, "
-         "(iii) for the whole float catalogue of C01 (func_common / exponential / trigonometric / relational / ext common, vec1-4 and the scalar references) under C01's preconditions, and (iv) an out-of-bounds-only claim on the unoptimised (-O0) IR of the memcpy / union / pointer based functions (packing, bit casts, make_vec/mat/quat), where an executor-detected out-of-bounds access is confirmed natively under AddressSanitizer.")
+         "(v) an extension table (props/c20_ext.py): the matrix / quaternion / geometric / transform / projection part of C15's operation table and 60 wrappers over the gtx / gtc helpers (fast_exponential, fast_square_root, fast_trigonometry, component_wise, bit, texture, easing, colour spaces, noise, matrix_access, decompose/recompose, qr/rq, range, associated/extended min-max, intersect, closest_point, norms, vector queries, rotate_vector, euler_angles, gtx quaternion and dual quaternion, spline, matrix query / major storage / interpolation / 2-D and 3-D transforms, type_ptr, n-step ULP) with glm's own assert()s taken as the documented preconditions; (vi) quaternion component access (operator[] const and non-const, relational functions, value_ptr / make_quat) in both memory orders, an out-of-bounds access at a concrete offset being confirmed under AddressSanitizer; (iii) for the whole float catalogue of C01 (func_common / exponential / trigonometric / relational / ext common, vec1-4 and the scalar references) under C01's preconditions, and (iv) an out-of-bounds-only claim on the unoptimised (-O0) IR of the memcpy / union / pointer based functions (packing, bit casts, make_vec/mat/quat), where an executor-detected out-of-bounds access is confirmed natively under AddressSanitizer.")
 BOUNDS = 'all argument values of the listed function instances within the documented precondition (evidence: functions_encoded, per-obligation bounds); loops unwound with unwinding assertions; pure build at -O1, plus the aligned 4-component slice (c20_sse2, thorough also c20_avx2) in the GLM_FORCE_INTRINSICS build'
 OUTSIDE = ('UB no sanitizer reports (strict-aliasing of the reinterpret_cast bit casts and lowp inversesqrt - compared across optimisation levels by C15 instead); misaligned access (wrappers pass naturally aligned arrays); '
-           'functions not in the table; ASan-class heap errors (the checked functions do not allocate)')
+           'functions not in the tables (gtc/random, gtx/hash, string_cast, io, pca eigen solvers, gtx/matrix_factorisation beyond 3x3 / 4x2); ASan-class heap errors (the checked functions do not allocate); the exact int32 domain of prev/floor/roundMultiple (x - Multiple representable is assumed instead; the exact ceil-direction domain IS decided)')
 ASSUMPTIONS = ['documented preconditions as listed per obligation (GLSL: bitfield offset/bits in range, non-zero divisors; gtc docs: positive Multiple; abs(INT_MIN) has no representable result and is outside)',
                'NaN arguments of the pack functions and of the float->int conversions are outside the documented domain']
 INC = ['glm/glm.hpp', 'glm/ext.hpp']
